@@ -25,6 +25,9 @@ pub enum Step {
 	/// the CA of endpoint i answers its next request at this position (new-account | account-update | key-change | new-order) with a
 	/// 503 that is not a problem document: the attempt that meets it fails and is repeated
 	Fault(usize, String),
+	/// as Fault, and the daemon is stopped as soon as the attempt that met the fault has been reported (before it is repeated): the
+	/// renewal of endpoint i that follows runs in a new daemon life, on whatever the interrupted life had stored
+	FaultRestart(usize, String),
 }
 
 #[derive(Clone, Debug, Serialize, Deserialize)]
@@ -32,6 +35,9 @@ pub struct BbCase {
 	pub n_endpoints: usize,
 	pub key0: String,
 	pub steps: Vec<Step>,
+	/// the CAs name themselves "LocalHost" in every URL they hand out (account URLs included): the daemon has to use them as given
+	#[serde(default)]
+	pub host_alias: bool,
 }
 
 fn contacts() -> impl Strategy<Value = Vec<String>> {
@@ -43,7 +49,7 @@ fn fast_key() -> impl Strategy<Value = String> {
 }
 
 fn bb_strategy() -> impl Strategy<Value = BbCase> {
-	(1usize..=3, fast_key()).prop_flat_map(|(n, key0)| {
+	(1usize..=3, fast_key(), prop_oneof![2 => Just(false), 1 => Just(true)]).prop_flat_map(|(n, key0, host_alias)| {
 		let step = prop_oneof![
 			2 => contacts().prop_map(Step::EditContacts),
 			2 => fast_key().prop_map(Step::ChangeKey),
@@ -61,7 +67,7 @@ fn bb_strategy() -> impl Strategy<Value = BbCase> {
 			if !matches!(steps.last(), Some(Step::Renew(_))) {
 				steps.push(Step::Renew(0));
 			}
-			BbCase { n_endpoints: n, key0: k0.clone(), steps }
+			BbCase { n_endpoints: n, key0: k0.clone(), steps, host_alias }
 		});
 		// scenario shape: every endpoint registered, then 1..2 edits (and possibly a forgotten account),
 		// then every endpoint renewed once in a random order
@@ -78,7 +84,7 @@ fn bb_strategy() -> impl Strategy<Value = BbCase> {
 				steps.push(Step::Forget(e));
 			}
 			if let Some((e, w)) = fault {
-				steps.push(Step::Fault(e, w.to_string()));
+				steps.push(if perm % 3 == 0 { Step::FaultRestart(e, w.to_string()) } else { Step::Fault(e, w.to_string()) });
 			}
 			let mut order: Vec<usize> = (0..n).collect();
 			let mut x = perm | 1;
@@ -94,7 +100,7 @@ fn bb_strategy() -> impl Strategy<Value = BbCase> {
 				order.insert(0, e);
 			}
 			steps.extend(order.into_iter().map(Step::Renew));
-			BbCase { n_endpoints: n, key0: k1.clone(), steps }
+			BbCase { n_endpoints: n, key0: k1.clone(), steps, host_alias }
 		});
 		prop_oneof![1 => free, 1 => shaped]
 	})
@@ -144,7 +150,7 @@ fn exec_bb_in(case: &BbCase, acmed: &std::path::Path, dir: &std::path::Path) -> 
 	let eab = Eab { kid: "kid-c11".into(), key: b"0123456789abcdef0123456789abcdef".to_vec(), alg: "HS256".into() };
 	let mut cas = vec![];
 	for e in 0..n {
-		let plan = CaPlan { eab: Some(eab.clone()), eab_required: false, polls_authz: 0, polls_ready: 0, polls_valid: 0, seed: 7 + e as u64, ..CaPlan::default() };
+		let plan = CaPlan { eab: Some(eab.clone()), eab_required: false, polls_authz: 0, polls_ready: 0, polls_valid: 0, seed: 7 + e as u64, host_alias: if case.host_alias { "LocalHost".into() } else { String::new() }, ..CaPlan::default() };
 		match MockCa::start(plan, vec![(bb::ident_key(&[("dns".to_string(), format!("n{e}.c11.test"))]), format!("c{e}"))]) {
 			Ok(c) => cas.push(c),
 			Err(e) => return Outcome::Infra(e),
@@ -162,11 +168,13 @@ fn exec_bb_in(case: &BbCase, acmed: &std::path::Path, dir: &std::path::Path) -> 
 	let mut log_marks: Vec<usize> = vec![0; n];
 	let mut posts_seen = 0usize;
 	let mut failed_seen = 0usize;
-	let mut classes: Vec<String> = vec![format!("endpoints={n}")];
+	let mut classes: Vec<String> = vec![format!("endpoints={n}"), format!("ca-host-alias={}", case.host_alias)];
 	let mut n_edits = 0;
 	let mut key_change_seen = false;
 	let mut sync_steps: std::collections::BTreeSet<usize> = Default::default();
 	let mut faults_armed = 0usize;
+	let mut interrupt_for: Option<usize> = None;
+	let mut lenient: std::collections::BTreeSet<usize> = Default::default();
 	let post_ok = |r: &crate::daemon::HookRecord| bb::is_post(r) && r.arg("is_success") == Some("true");
 
 	let write_cfg = |contacts: &[String], key: &str, binding: bool| {
@@ -218,7 +226,10 @@ fn exec_bb_in(case: &BbCase, acmed: &std::path::Path, dir: &std::path::Path) -> 
 				}
 				continue;
 			}
-			Step::Fault(e, which) => {
+			Step::Fault(e, which) | Step::FaultRestart(e, which) => {
+				if matches!(step, Step::FaultRestart(..)) {
+					interrupt_for = Some(*e);
+				}
 				let pos = match which.as_str() {
 					"new-account" => Pos::NewAccount,
 					"account-update" => Pos::AccountUpdate,
@@ -261,6 +272,34 @@ fn exec_bb_in(case: &BbCase, acmed: &std::path::Path, dir: &std::path::Path) -> 
 		} else if cur_type != k_key {
 			cur_version += 1;
 			cur_type = k_key.clone();
+		}
+		if interrupt_for.is_some() && interrupt_for == renew && run_targets.len() == 1 {
+			// a first life that ends with the first reported attempt (normally the one that met the fault), then the restart
+			let e = interrupt_for.take().unwrap();
+			let mut d0 = match Daemon::spawn(&bb::daemon_opts(acmed, dir, &cfg_path, &format!("s{si}i"))) {
+				Ok(d) => d,
+				Err(e) => return Outcome::Infra(e),
+			};
+			coll.hold_when(Box::new(|r, _| bb::is_post(r)));
+			let before = coll.records().iter().filter(|x| bb::is_post(x)).count();
+			let ok = coll.wait_until(&|r| r.iter().filter(|x| bb::is_post(x)).count() > before, Duration::from_secs(60), &mut || d0.state() != ProcState::Alive);
+			let recs = coll.records();
+			let tail = d0.stderr_tail(8);
+			d0.kill();
+			coll.release_one();
+			if !ok {
+				return Outcome::fail("C11:renewal-incomplete", format!("the interrupted life reported no attempt; {}\n{tail}", d()));
+			}
+			if recs.iter().filter(|x| bb::is_post(x)).last().map(|p| post_ok(p)).unwrap_or(false) {
+				posts_seen += 1;
+			} else {
+				failed_seen += 1;
+			}
+			let _ = std::fs::remove_file(lay.certs.join(format!("c{e}_ecdsa-p256.crt.pem")));
+			// what that life had got done before it was stopped is not modelled request by request: the life that follows is judged
+			// on its outcome (renewal succeeds, every request verifies at the CA, the CA's record follows the configuration)
+			lenient.insert(e);
+			classes.push("interrupted-then-restarted".into());
 		}
 		let mut daemon = match Daemon::spawn(&bb::daemon_opts(acmed, dir, &cfg_path, &format!("s{si}"))) {
 			Ok(d) => d,
@@ -355,10 +394,11 @@ fn exec_bb_in(case: &BbCase, acmed: &std::path::Path, dir: &std::path::Path) -> 
 			let got_new = ok2xx(&Pos::NewAccount);
 			let got_key = ok2xx(&Pos::KeyChange);
 			let got_contact = new_log.iter().filter(|l| l.pos == Pos::AccountUpdate && l.status == 200 && !l.payload.is_empty()).count();
-			if got_new != want_new {
+			let counted = !lenient.remove(&e);
+			if counted && got_new != want_new {
 				return Outcome::fail(if got_new > want_new { "C11:extra-registration" } else { "C11:missing-registration" }, format!("endpoint {e}: {got_new} newAccount requests, model predicts {want_new} (model {m:?}, configuration contacts {k_contacts:?} key {k_key} v{cur_version} binding {k_binding}); {}", d()));
 			}
-			if !m.forgotten && (got_key != want_key || got_contact != want_contact) {
+			if counted && !m.forgotten && (got_key != want_key || got_contact != want_contact) {
 				return Outcome::fail("C11:update-count", format!("endpoint {e}: {got_key} key changes / {got_contact} contact updates, model predicts {want_key} / {want_contact} (model {m:?}, configuration contacts {k_contacts:?} key {k_key} v{cur_version}); {}", d()));
 			}
 			if want_key == 1 {
@@ -622,7 +662,7 @@ fn exec_start(c: &StartCase) -> Outcome {
 }
 
 pub fn run(ctx: &Ctx, rep: &mut Report) {
-	rep.rule = "bb: histories of up to 9 steps (free-form, or scenario-shaped: all endpoints registered, 1..2 edits, optional restart and forgotten account, then every endpoint renewed in a random order) over one account on 1..3 endpoints (one mock CA each): edit contacts | change key type | change both | add/remove external binding | plain restart | renew on endpoint i (its certificate file is removed, the others stay valid) | CA forgets the account | the CA answers its next newAccount / account update / key-change / newOrder with a 503 (the attempt fails and is repeated at once; the predicted requests must still all happen); an account model in the harness predicts, per endpoint, the number of newAccount / key-change / contact-update requests of each renewal, that idle endpoints receive nothing, and that afterwards the CA's record (contacts, key type) equals the configuration; the strict CA verifies that roll-overs are authorised by the key it holds. pr: account shapes (7 key types, 0..3 superseded keys, 0..3 endpoints with URLs and fingerprints, binding, Unicode names) saved by one process and loaded by a fresh one (for one shape in five the file is moved in between and a symbolic link left at its place): dumps equal field by field (keys by SPKI and private DER); for a share of the shapes EVERY truncation point of the file must be refused and leave the file untouched. start: the real daemon started on a truncated account file must exit non-zero with a message, register nothing and not touch the file. Non-trivial (bb) = >= 2 edits with a key roll-over, or >= 2 endpoints synchronised at different steps; (pr) superseded keys or >= 2 endpoints.".into();
+	rep.rule = "bb: histories of up to 9 steps (free-form, or scenario-shaped: all endpoints registered, 1..2 edits, optional restart and forgotten account, then every endpoint renewed in a random order) over one account on 1..3 endpoints (one mock CA each; in a third of the cases the CAs name themselves LocalHost in all their URLs): edit contacts | change key type | change both | add/remove external binding | plain restart | renew on endpoint i (its certificate file is removed, the others stay valid) | CA forgets the account | the CA answers its next newAccount / account update / key-change / newOrder with a 503 (the attempt fails and is repeated at once, or the daemon is stopped right after the failed attempt and a new life does the renewal; the predicted requests must still all happen / the new life must succeed with requests the CA can verify and leave the CA's record equal to the configuration); an account model in the harness predicts, per endpoint, the number of newAccount / key-change / contact-update requests of each renewal, that idle endpoints receive nothing, and that afterwards the CA's record (contacts, key type) equals the configuration; the strict CA verifies that roll-overs are authorised by the key it holds. pr: account shapes (7 key types, 0..3 superseded keys, 0..3 endpoints with URLs and fingerprints, binding, Unicode names) saved by one process and loaded by a fresh one (for one shape in five the file is moved in between and a symbolic link left at its place): dumps equal field by field (keys by SPKI and private DER); for a share of the shapes EVERY truncation point of the file must be refused and leave the file untouched. start: the real daemon started on a truncated account file must exit non-zero with a message, register nothing and not touch the file. Non-trivial (bb) = >= 2 edits with a key roll-over, or >= 2 endpoints synchronised at different steps; (pr) superseded keys or >= 2 endpoints.".into();
 	run_replays::<BbCase>(ctx, rep, "bb", &exec_bb);
 	run_replays::<Shape>(ctx, rep, "shape", &exec_shape);
 	run_replays::<StartCase>(ctx, rep, "start", &exec_start);
